@@ -52,8 +52,9 @@ type Plan struct {
 }
 
 var kinds = map[string][]string{
-	"type1-issuer":     {"Evaluate", "Evaluate", "EvaluateMalformed", "Verify", "TokenKeyID", "TokenKey"},
-	"type5-issuer":     {"Evaluate", "Evaluate", "EvaluateMalformed", "Verify", "TokenKeyID", "TokenKey"},
+	"type1-issuer":     {"Evaluate", "Evaluate", "EvaluateMalformed", "Verify", "VerifyVariant", "TokenKeyID", "TokenKey"},
+	"type5-issuer":     {"Evaluate", "Evaluate", "EvaluateMalformed", "Verify", "VerifyVariant", "TokenKeyID", "TokenKey"},
+	"two-verifiers":    {"VerifyAtOwn", "VerifyAtOther", "VerifyAtOwn", "VerifyAtOther", "VerifyOtherTokenAtOther"},
 	"type2-issuer":     {"Evaluate", "TokenKeyID", "TokenKey"},
 	"type3-issuer":     {"Evaluate", "EvaluateUnknownOrigin", "TokenKeyID", "NameKey", "OriginIndexKey"},
 	"batch-issuer":     {"EvaluateBatch"},
@@ -67,7 +68,7 @@ var kinds = map[string][]string{
 }
 
 func kindNames() []string {
-	return []string{"type1-issuer", "type5-issuer", "type2-issuer", "type3-issuer", "batch-issuer", "ecdsa-keys", "ed25519-keys", "ecdsa-generate", "clients", "rsa-key-ids"}
+	return []string{"type1-issuer", "type5-issuer", "type2-issuer", "type3-issuer", "batch-issuer", "ecdsa-keys", "ed25519-keys", "ecdsa-generate", "clients", "rsa-key-ids", "two-verifiers"}
 }
 
 // a check to run after the goroutines have joined
@@ -195,6 +196,28 @@ func execute(p Plan) error {
 							return func() error {
 								if e1 != nil || e2 == nil {
 									return fmt.Errorf("concurrent Verify: valid token -> %v, invalid token -> %v", e1, e2)
+								}
+								return nil
+							}
+						})
+					case "VerifyVariant":
+						// the honest token with ONE other field changed (same nonce, same authenticator): never valid, whatever
+						// other goroutines are verifying at the same moment
+						input := gen.AuthInput(typ, nonce, chal, wantID)
+						variant := tokens.Token{TokenType: typ, Nonce: nonce, Context: append([]byte{}, input[34:66]...), KeyID: append([]byte{}, wantID...), Authenticator: gen.VOPRFOutput(suite, refKey, input)}
+						switch (g + len(runs[g])) % 3 {
+						case 0:
+							variant.Context[5] ^= 0x10
+						case 1:
+							variant.KeyID[7] ^= 0x01
+						case 2:
+							variant.TokenType = 6 - typ
+						}
+						runs[g] = append(runs[g], func() post {
+							err := verify(variant)
+							return func() error {
+								if err == nil {
+									return fmt.Errorf("concurrent Verify accepted a token that differs from the honest one in context, key id or type (same nonce, same authenticator)")
 								}
 								return nil
 							}
@@ -419,6 +442,50 @@ func execute(p Plan) error {
 							}
 							if _, err := s2.FinalizeToken(list[1]); err != nil {
 								return fmt.Errorf("entry 1 does not finalize: %v", err)
+							}
+							return nil
+						}
+					})
+				}
+			}
+		case "two-verifiers":
+			// two issuers of one type with DIFFERENT keys (a key rotation) are shown the same token at the same time: the one
+			// that issued it accepts, the other refuses - whatever is shared between issuer objects process-wide
+			typ := uint16(1 + 4*(int(seed[2])%2))
+			suite := oprf.SuiteP384
+			if typ == 5 {
+				suite = oprf.SuiteRistretto255
+			}
+			kA, kB := gen.OPRFKey(suite, append(append([]byte{}, seed...), 'A')), gen.OPRFKey(suite, append(append([]byte{}, seed...), 'B'))
+			idA, idB := gen.OPRFKeyID(kA), gen.OPRFKeyID(kB)
+			var vA, vB func(tokens.Token) error
+			if typ == 1 {
+				vA, vB = type1.NewBasicPrivateIssuer(gen.FreshOPRFKey(suite, kA)).Verify, type1.NewBasicPrivateIssuer(gen.FreshOPRFKey(suite, kB)).Verify
+			} else {
+				vA, vB = type5.NewBatchedPrivateIssuer(gen.FreshOPRFKey(suite, kA)).Verify, type5.NewBatchedPrivateIssuer(gen.FreshOPRFKey(suite, kB)).Verify
+			}
+			inA, inB := gen.AuthInput(typ, nonce, chal, idA), gen.AuthInput(typ, nonce, chal, idB)
+			tokA := tokens.Token{TokenType: typ, Nonce: nonce, Context: inA[34:66], KeyID: idA, Authenticator: gen.VOPRFOutput(suite, kA, inA)}
+			tokB := tokens.Token{TokenType: typ, Nonce: nonce, Context: inB[34:66], KeyID: idB, Authenticator: gen.VOPRFOutput(suite, kB, inB)}
+			for g := range p.Ops {
+				for _, opn := range p.Ops[g] {
+					opn := opn
+					runs[g] = append(runs[g], func() post {
+						var err error
+						switch opn {
+						case "VerifyAtOwn":
+							err = vA(tokA)
+						case "VerifyAtOther":
+							err = vB(tokA)
+						case "VerifyOtherTokenAtOther":
+							err = vB(tokB)
+						}
+						return func() error {
+							if opn == "VerifyAtOther" && err == nil {
+								return fmt.Errorf("an issuer accepted a token issued under ANOTHER issuer's key while that issuer was verifying it")
+							}
+							if opn != "VerifyAtOther" && err != nil {
+								return fmt.Errorf("%s: an issuer rejected its own token while another issuer was looking at the same bytes: %v", opn, err)
 							}
 							return nil
 						}
